@@ -415,7 +415,7 @@ def run(model, col, tier):
     sub = Collector("C09")
     c09.run(model, sub, "quick")
     for ob in sub.obligations:
-        if ob.rule in ("R09.2", "R09.3"):
+        if ob.rule in ("R09.2", "R09.3", "R09.7"):
             ob.rule = "R04.9"
             col.obligations.append(ob)
     # the CAST arm converts vectors and matrices component by component: the guard that switches to the element type holds for both kinds
